@@ -28,6 +28,7 @@ class Contract:
         self.ghost = ghost              # callable(S, env): adds ghost names to the clause environment
         self.pure = pure
         self.dispatch = dispatch        # callable(bound args) -> variant suffix selecting the contract at call sites
+        self.native_ghost = ""          # python source defining ghost(env) for the native replay
 
     def named(self, clauses, prefix):
         out = []
@@ -454,7 +455,12 @@ def verify_function(repo, registry, qualname, max_paths=400, post_hooks=()):
                 ex.assume(f)
             if not ex.feasible(z3.BoolVal(True)):
                 raise Infeasible()
-            old = snapshot_env(env)
+            old = snapshot_env(env, extra_roots=list(ex.globals_heap.values()))
+            memo = old.get("__memo__", {})
+            rep.leaves = dict(sfac.leaves)
+            rep.leaves["__args__"] = {k: v for k, v in old.items() if k not in ("__memo__",)}
+            rep.leaves["__singletons__"] = {k: memo.get(id(v), v) for k, v in ex.globals_heap.items()}
+            rep.leaves["__params__"] = [p_[0] for p_ in finfo.params()[0] if p_[0] in env]
             ex.frames.pop()
             try:
                 body_env = dict((k, v) for k, v in env.items())
@@ -507,6 +513,13 @@ def verify_function(repo, registry, qualname, max_paths=400, post_hooks=()):
             rep.unsupported.append("break/continue outside loop")
         finally:
             registry.under_proof = None
+        for ob_ in ex.obligations:
+            ob_.meta.setdefault("function", qualname)
+            ob_.meta.setdefault("contract", {
+                "requires": [list(x) for x in c.named(c.requires, "requires")],
+                "ensures": [list(x) for x in c.named(c.ensures, "ensures")],
+                "raises": {k: v.get("when") for k, v in c.raises.items()},
+                "native_ghost": getattr(c, "native_ghost", "")})
         rep.obligations.extend(ex.obligations)
         for n in ex.notes:
             key = (n["loop"], n["handled"])
